@@ -23,7 +23,7 @@ RULE = ("hypothesis-generated values (derandomised from the seed) from the lossl
         "x level; non-trivial = not a bare scalar None/bool")
 ASSUMPTIONS = ["ints bounded by CPython's int<->str digit limit", "datetimes: naive, whole milliseconds, TZ=UTC",
                "values a serializer refuses are only required to be refused on every path alike"]
-REQUIRED_REACH = ["huge_int_cases", "concurrent_wire_calls", "shards_with_serpent_bytes_repr", "codec_core_ok", "codec_ext_ok", "wire_ok", "wire_batch_ok", "wire_stream_ok", "wire_compressed_request", "wire_compressed_reply", "wire_with_annotations", "codec_memoryview_same"]
+REQUIRED_REACH = ["shards_with_one_sided_replacements", "huge_int_cases", "concurrent_wire_calls", "shards_with_serpent_bytes_repr", "codec_core_ok", "codec_ext_ok", "wire_ok", "wire_batch_ok", "wire_stream_ok", "wire_compressed_request", "wire_compressed_reply", "wire_with_annotations", "codec_memoryview_same"]
 SHARD_TIMEOUT = {"quick": 220, "thorough": 2400}
 RAISED = object()
 
@@ -42,9 +42,15 @@ def plan(tier, seed):
     # the serpent option SERPENT_BYTES_REPR (bytes travel as bytes literals instead of base64 dicts): the mapping changes, and is again the
     # same for arguments and results
     shards.append({"kind": "codec", "i": 100, "n": per_codec // 3, "bytes_repr": True})
+    # the application registers a type replacement with ONE serializer (json: Decimal, msgpack: UUID): the other serializers' mapping of
+    # that type is what it always was
+    shards.append({"kind": "codec", "i": 101, "n": per_codec // 3, "one_sided_replacements": True})
     for st in ("thread", "multiplex"):
         shards.append({"kind": "wire", "servertype": st, "compression": st == "thread", "i": 100, "n": per_wire, "bytes_repr": True})
     return shards
+
+
+ONE_SIDED = [False]
 
 
 def outcome(fn):
@@ -142,7 +148,10 @@ def check_codec(sers, name, x, is_core, rec):
         # decimal and uuid values travel as their text under the three text-minded serializers (Pyro's serializer table)
         import decimal as _dec
         import uuid as _uuid
-        if type(x) in (_dec.Decimal, _uuid.UUID) and (type(R) is not str or R != str(x)):
+        want_text = str(x)
+        if ONE_SIDED[0] and ((name == "json" and type(x) is _dec.Decimal) or (name == "msgpack" and type(x) is _uuid.UUID)):
+            want_text = ("json-only:" if name == "json" else "msgpack-only:") + str(x)       # (what the application asked THIS serializer to do)
+        if type(x) in (_dec.Decimal, _uuid.UUID) and (type(R) is not str or R != want_text):
             rec.violation("documented-mapping-broken:%s" % name, "%s: %s %s arrives as %s, expected its text %r" % (name, type(x).__name__, x, show(R), str(x)), pay)
             return
     if name == "serpent" and type(x) is bytes:
@@ -464,6 +473,13 @@ def run_shard(shard, rec):
     P.config.SERPENT_BYTES_REPR = bool(shard.get("bytes_repr"))
     if shard.get("bytes_repr"):
         rec.count("shards_with_serpent_bytes_repr")
+    if shard.get("one_sided_replacements"):
+        import decimal as _dec
+        import uuid as _uuid
+        P.serializers.JsonSerializer.register_type_replacement(_dec.Decimal, lambda d: "json-only:" + str(d))
+        P.serializers.MsgpackSerializer.register_type_replacement(_uuid.UUID, lambda u: "msgpack-only:" + str(u))
+        ONE_SIDED[0] = True
+        rec.count("shards_with_one_sided_replacements")
     if shard["kind"] == "codec":
         def core_case(x):
             for name in fixture.SERIALIZERS:
